@@ -47,15 +47,19 @@ Print Assumptions C11_context_free.
 
 (* ... lifted through every container by induction on the tree: insertions at any depth (g, svg, nested
    svg, symbol and the other children of a use shadow tree, the chosen switch branch, shapes' children),
-   except directly under switch, inside text, and at the root of a use shadow tree. *)
+   except directly under switch, inside text, and at the root of a use shadow tree.
+   callbacks_ext: the abstract `use` / nested `svg` converters only call the child conversions they are handed
+   (extensionally equal callbacks give equal results) - stated as a hypothesis instead of assuming
+   functional extensionality. *)
 Theorem C11_context_free_tree :
   forall (state : Type) (st_in_clip st_no_markers : state -> bool)
          (conv_path : tag -> attrs -> conv_t state) (conv_image : attrs -> conv_t state) (conv_text : node -> conv_t state)
          (conv_use : attrs -> option (option tag * attrs) -> conv_t state -> conv_t state -> conv_t state)
          (conv_nested_svg : attrs -> conv_t state -> conv_t state) (obj_bbox : ogroup -> option qrect)
          (res_clip res_mask : string -> state -> option qrect -> cache -> option string * cache)
-         (res_filter : attrs -> state -> option qrect -> cache -> option (list string) * cache)
-         (n n' : node) (top clip : bool) (st : state) (c : cache) (p : ogroup),
+         (res_filter : attrs -> state -> option qrect -> cache -> option (list string) * cache),
+  callbacks_ext state conv_use conv_nested_svg ->
+  forall (n n' : node) (top clip : bool) (st : state) (c : cache) (p : ogroup),
   ins n n' ->
   conv_elem state st_in_clip st_no_markers conv_path conv_image conv_text conv_use conv_nested_svg obj_bbox
             res_clip res_mask res_filter n' top clip st c p =
@@ -70,8 +74,9 @@ Theorem C11_context_free_forest :
          (conv_use : attrs -> option (option tag * attrs) -> conv_t state -> conv_t state -> conv_t state)
          (conv_nested_svg : attrs -> conv_t state -> conv_t state) (obj_bbox : ogroup -> option qrect)
          (res_clip res_mask : string -> state -> option qrect -> cache -> option string * cache)
-         (res_filter : attrs -> state -> option qrect -> cache -> option (list string) * cache)
-         (l l' : nodes) (top clip : bool) (st : state) (c : cache) (p : ogroup),
+         (res_filter : attrs -> state -> option qrect -> cache -> option (list string) * cache),
+  callbacks_ext state conv_use conv_nested_svg ->
+  forall (l l' : nodes) (top clip : bool) (st : state) (c : cache) (p : ogroup),
   ins_list true l l' ->
   conv_children state st_in_clip st_no_markers conv_path conv_image conv_text conv_use conv_nested_svg obj_bbox
                 res_clip res_mask res_filter l' top clip st c p =
